@@ -24,10 +24,6 @@ import (
 	"qrynverif/evid"
 )
 
-// Known finding owned by C07 (same planner): bitShiftLeft(cond, i) keeps UInt8, so a selector
-// with more than 8 index matchers can never satisfy the HAVING bit mask.
-const knownBitmask = "C07-matcher-bitmask-uint8"
-
 type selCase struct {
 	DB mDB        `json:"db"`
 	Ms []mMatcher `json:"matchers"`
@@ -39,7 +35,7 @@ func genSel(rt *rapid.T) selCase {
 	})
 	max := 4
 	if chance(rt, 2, "manyMatchers") {
-		max = 10
+		max = 11
 	}
 	return selCase{DB: db, Ms: genMatchers(rt, &db, max)}
 }
@@ -70,6 +66,31 @@ func fpSelSQL(ms []mMatcher, fromMs, toMs int64) (string, error) {
 	return "", fmt.Errorf("rendered query has no fp_sel")
 }
 
+// tagCollisions classifies the case: does the database hold, for some matcher, a value that is
+// not the queried one but that a pattern reading of the matcher would accept (neighbours.go)?
+func tagCollisions(o *evid.Obs, ms []mMatcher, values func(name string, f func(v string))) {
+	eq, re := false, false
+	for _, m := range ms {
+		values(m.Name, func(v string) {
+			switch m.Op {
+			case "=", "!=":
+				eq = eq || collides(m.Val, v)
+			default:
+				re = re || collidesRe(m.Val, v)
+			}
+		})
+	}
+	if eq {
+		o.Tag("near-collision:eq")
+	}
+	if re {
+		o.Tag("near-collision:re")
+	}
+	if eq || re {
+		o.Tag("near-collision")
+	}
+}
+
 func predSel(c selCase, o *evid.Obs) error {
 	resetGlobals()
 	if len(c.DB.Series) == 0 || len(c.Ms) == 0 {
@@ -79,10 +100,6 @@ func predSel(c selCase, o *evid.Obs) error {
 	pms, err := promMatchers(c.Ms)
 	if err != nil {
 		o.Discard("invalid-regex") // the PromQL parser rejects the query before Select
-		return nil
-	}
-	if len(c.Ms) > 8 && !o.Witness {
-		o.Known(knownBitmask)
 		return nil
 	}
 	stmt, err := fpSelSQL(c.Ms, baseMs-60_000, baseMs+600_000)
@@ -130,6 +147,13 @@ func predSel(c selCase, o *evid.Obs) error {
 	for fp := range got {
 		errs = append(errs, fmt.Sprintf("unknown fingerprint %d returned", fp))
 	}
+	tagCollisions(o, c.Ms, func(name string, f func(v string)) {
+		for i := range c.DB.Series {
+			if v, ok := c.DB.Series[i].get(name); ok && !c.DB.Series[i].Log {
+				f(v)
+			}
+		}
+	})
 	for _, m := range c.Ms {
 		o.Tag("op" + m.Op)
 		if m.Name == "__name__" {
@@ -137,6 +161,9 @@ func predSel(c selCase, o *evid.Obs) error {
 		}
 	}
 	o.Tag(fmt.Sprintf("matchers-%d", min(len(c.Ms), 5)))
+	if len(c.Ms) > 8 {
+		o.Tag("matchers>8") // HAVING bit mask wider than UInt8 (C07's fix 21d4cf3)
+	}
 	if ndc > 0 {
 		o.Tag("absent-label-dontcare")
 	}
